@@ -63,6 +63,12 @@ func c18Ref(s string, emit func(desc, input string)) {
 	}
 }
 
+var (
+	c18PrevData []byte
+	c18PrevCopy string
+	c18PrevText string
+)
+
 func c18Data(text string, emit func(desc, input string)) {
 	in := "data\x1f" + text
 	var v interface{}
@@ -74,6 +80,11 @@ func c18Data(text string, emit func(desc, input string)) {
 		emit(fmt.Sprintf("MarshalDataValue(%s) failed: %v", text, err), in)
 		return
 	}
+	// the result of the previous call is still held by the caller: it must not change under a later call
+	if c18PrevData != nil && string(c18PrevData) != c18PrevCopy {
+		emit(fmt.Sprintf("the bytes returned by MarshalDataValue(%s) changed from %q to %q when MarshalDataValue(%s) was called", c18PrevText, c18PrevCopy, c18PrevData, text), in)
+	}
+	c18PrevData, c18PrevCopy, c18PrevText = data, string(data), text
 	_, isObj := v.(map[string]interface{})
 	_, isArr := v.([]interface{})
 	var g interface{}
